@@ -192,6 +192,18 @@ CHECKS = {
              "reach (scipy). Two recorded findings: chained removal accumulates deviation; no one-sided refinement below 11 points. " + ENGINE_NOTE,
         technique="solver-based path-exhaustive symbolic execution of the real code (z3; sqrt as uninterpreted function with defining axiom)",
     ),
+    "C16": dict(
+        category="model_checking",
+        text="(1) the real service on one symbolic problem given as dictionary, validated model and value-with-unit numbers on the same path: "
+             "identical records; (2) get_value with a symbolic magnitude; (3) PinchProblem under every solver-chosen sequence of 3-5 "
+             "load/target/export calls with the service stubbed: result of the problem currently loaded, cached object on repetition; "
+             "(4) _unique_sheet_name with symbolic characters around the 31-character cut: unique, 1..31 chars, no forbidden character. JSON "
+             "file, CSV directory/pair and the wrapper are compared on the concrete replay of path models (path-directed witnesses).",
+        design_ref="5/C16",
+        note="Workbook (xlsx/xlsb) channel: not applicable -- binary parsers, no template writer in reach. Sheet-name characters and wrapper "
+             "operations are finite-domain symbolic. " + ENGINE_NOTE,
+        technique="solver-based symbolic execution of the real code (z3); finite-domain solver choices for characters and call sequences",
+    ),
 }
 
 NOT_YET = {}
